@@ -11,13 +11,13 @@ RULE = ("event histories (length 1-8: open, change, create, rename, delete, conf
 TRUSTED = ["sourcegraph/jsonrpc2 dispatch; fsnotify for config changes; idleness is detected by polling (generous deadlines)"]
 ASSUMPTIONS = ["worker steps are atomic in the Lean model; finer interleavings are only sampled by the free-running harness"]
 
-CFG = "rules:\n  idiomatic:\n    directory-package-mismatch:\n      level: ignore\n"
+CFG = "ignore:\n  files:\n    - ignored/\nrules:\n  idiomatic:\n    directory-package-mismatch:\n      level: ignore\n"
 CFG2 = CFG + "  style:\n    opa-fmt:\n      level: ignore\n"
 
 
 # only the aggregate rules that collect nothing for most files stay active (unresolved-import, prefer-package-imports
 # and impossible-not emit an entry for EVERY file, which would hide an update of a file to "no aggregate data")
-CFG3 = ("rules:\n  idiomatic:\n    directory-package-mismatch:\n      level: ignore\n"
+CFG3 = ("ignore:\n  files:\n    - ignored/\nrules:\n  idiomatic:\n    directory-package-mismatch:\n      level: ignore\n"
         "  imports:\n    unresolved-import:\n      level: ignore\n    prefer-package-imports:\n      level: ignore\n"
         "  bugs:\n    impossible-not:\n      level: ignore\n")
 
@@ -53,6 +53,13 @@ def content(i, imports, variant=0):
     return "\n".join(lines) + "\n"
 
 
+def relayout(rng, text):
+    """the same module with blank / comment lines added in front of the body: same AST, other positions"""
+    head, sep, rest = text.partition("\n\n")
+    pad = "".join(rng.choice(["\n", "# note\n", "\n\n"]) for _ in range(rng.randint(1, 3)))
+    return head + sep + pad + rest
+
+
 def gen_history(rng, k):
     n = rng.randint(3, 4)
     files = {}
@@ -74,7 +81,11 @@ def gen_history(rng, k):
             f = rng.choice(live)
             i = int(f.split("/")[0][1:])
             imps = [j for j in range(n + 1) if j != i and rng.random() < 0.4]
-            events.append({"kind": "change", "file": f, "text": content(i, imps, rng.choice([0, 1, 2, 3])), "pauseMs": pause})
+            t = content(i, imps, rng.choice([0, 1, 2, 3]))
+            events.append({"kind": "change", "file": f, "text": t, "pauseMs": pause})
+            if rng.random() < 0.35 and not is_broken(t):
+                # followed by an edit that only moves the code (blank / comment lines): diagnostics must move with it
+                events.append({"kind": "change", "file": f, "text": relayout(rng, t), "pauseMs": rng.choice([0, 150, 600])})
         elif r < 0.68:
             i = n + created
             created += 1
@@ -87,7 +98,8 @@ def gen_history(rng, k):
             events.append({"kind": "delete", "file": f, "pauseMs": pause})
         elif r < 0.92 and live:
             f = rng.choice(live)
-            to = f.replace(".rego", "_r.rego")
+            to = rng.choice([f.replace(".rego", "_r.rego"), f.replace(".rego", "_r.rego"), f + ".bak",
+                             "ignored/" + f.split("/")[-1]])
             if to not in live:
                 live.remove(f)
                 live.append(to)
